@@ -16,7 +16,7 @@ import typing
 import numpy
 
 from vector._compute.lorentz import t
-from vector._compute.spatial import equal
+from vector._compute.spatial import not_equal
 from vector._methods import (
     AzimuthalRhoPhi,
     AzimuthalXY,
@@ -40,7 +40,7 @@ dispatch_map = {}
 def make_conversion(
     azimuthal1, longitudinal1, temporal1, azimuthal2, longitudinal2, temporal2
 ):
-    spatial_equal, _ = equal.dispatch_map[
+    spatial_not_equal, _ = not_equal.dispatch_map[
         azimuthal1, longitudinal1, azimuthal2, longitudinal2
     ]
 
@@ -115,7 +115,7 @@ def make_conversion(
         def f(
             lib, coord11, coord12, coord13, coord14, coord21, coord22, coord23, coord24
         ):
-            return (coord14 != coord24) & spatial_equal(
+            return (coord14 != coord24) | spatial_not_equal(
                 lib, coord11, coord12, coord13, coord21, coord22, coord23
             )
 
@@ -127,7 +127,9 @@ def make_conversion(
             return (
                 to_t1(lib, coord11, coord12, coord13, coord14)
                 != to_t2(lib, coord21, coord22, coord23, coord24)
-            ) & spatial_equal(lib, coord11, coord12, coord13, coord21, coord22, coord23)
+            ) | spatial_not_equal(
+                lib, coord11, coord12, coord13, coord21, coord22, coord23
+            )
 
     dispatch_map[
         azimuthal1, longitudinal1, temporal1, azimuthal2, longitudinal2, temporal2
